@@ -102,12 +102,16 @@ type interpreter struct {
 	curG      *goroutine
 	harnessState map[string]value
 	program   *Program
+	callStack []*ssa.Function
+	lastFault string
+	lastFaultVal interface{}
 	initStarted map[*ssa.Function]bool
 	pkgInitDone map[*ssa.Package]bool
 	locks     map[*value]*lockState
 	onces     map[*value]int
 	wgs       map[*value]int
 	timers    map[*value]*vtimer
+	syncMaps  map[*value]*smap
 }
 
 type deferred struct {
@@ -129,6 +133,7 @@ type frame struct {
 	panicking        bool
 	panic            interface{}
 	phitemps         []value // temporaries for parallel phi assignment
+	tolerant         bool    // package initialiser: a failing instruction yields poison instead of unwinding
 }
 
 func (fr *frame) get(key ssa.Value) value {
@@ -543,10 +548,16 @@ func callSSA(i *interpreter, caller *frame, callpos token.Pos, fn *ssa.Function,
 		i.unsupported("no code for function %s", info.name)
 	}
 	i.callDepth++
+	i.callStack = append(i.callStack, fn)
 	if i.callDepth > i.limits.MaxCallDepth {
 		i.abort(abortBound, "call depth exceeds %d (in %s)", i.limits.MaxCallDepth, info.name)
 	}
-	defer func() { i.callDepth-- }()
+	defer func() {
+		i.callDepth--
+		if n := len(i.callStack); n > 0 {
+			i.callStack = i.callStack[:n-1]
+		}
+	}()
 
 	// generic function body?
 	if fn.TypeParams().Len() > 0 && len(fn.TypeArgs()) == 0 {
@@ -554,6 +565,7 @@ func callSSA(i *interpreter, caller *frame, callpos token.Pos, fn *ssa.Function,
 	}
 
 	fr.env = make(map[ssa.Value]value)
+	fr.tolerant = info.pkgInit
 	fr.block = fn.Blocks[0]
 	fr.locals = make([]value, len(fn.Locals))
 	for i, l := range fn.Locals {
@@ -604,6 +616,10 @@ func runFrame(fr *frame) {
 		if ea, ok := fr.panic.(engineAbort); ok {
 			panic(ea) // engine-level abort: not visible to the target program
 		}
+		if fr.i.lastFaultVal == nil {
+			fr.i.lastFaultVal = fr.panic
+			fr.i.lastFault = fr.i.stackString()
+		}
 		if fr.i.mode&EnableTracing != 0 {
 			fmt.Fprintf(os.Stderr, "Panicking: %T %v.\n", fr.panic, fr.panic)
 		}
@@ -628,6 +644,14 @@ func runFrame(fr *frame) {
 			fr.i.ps.steps++
 			if fr.i.ps.steps > fr.i.limits.MaxSteps {
 				fr.i.abort(abortBound, "more than %d instructions on one path (in %s)", fr.i.limits.MaxSteps, fr.fn)
+			}
+			if fr.tolerant {
+				switch tolerantVisit(fr, instr) {
+				case kReturn:
+					return
+				case kJump:
+				}
+				continue
 			}
 			if visitInstr(fr, instr) == kReturn {
 				return
@@ -684,6 +708,7 @@ func doRecover(caller *frame) value {
 		caller.caller.panicking = false
 		p := caller.caller.panic
 		caller.caller.panic = nil
+		caller.i.lastFaultVal = nil
 
 		// TODO(adonovan): support runtime.Goexit.
 		switch p := p.(type) {
@@ -705,3 +730,35 @@ func doRecover(caller *frame) value {
 	return iface{}
 }
 
+
+// tolerantVisit executes one instruction of a package initialiser; if it
+// fails (unsupported construct, runtime fault, panic in a callee) the value it
+// defines becomes poison and initialisation continues with the next one.
+func tolerantVisit(fr *frame, instr ssa.Instruction) (k continuation) {
+	defer func() {
+		if r := recover(); r != nil {
+			if ea, ok := r.(engineAbort); ok && ea.kind != abortUnsupported {
+				panic(r)
+			}
+			if _, isIf := instr.(*ssa.If); isIf {
+				panic(r) // cannot continue past an undecidable branch
+			}
+			why := fmt.Sprint(r)
+			if ia, ok := r.(initAbort); ok {
+				why = ia.why
+			}
+			if len(why) > 160 {
+				why = why[:160]
+			}
+			if fr.i.cfg.Verbose {
+				fmt.Fprintf(os.Stderr, "gosym: init of %s: %v failed (%s) [%s]\n", fr.fn.Pkg.Pkg.Path(), instr, why, fr.i.lastFault)
+			}
+			fr.i.lastFaultVal = nil
+			if v, ok := instr.(ssa.Value); ok {
+				fr.env[v] = poison{"initialiser failed in " + fr.fn.Pkg.Pkg.Path() + ": " + why}
+			}
+			k = kNext
+		}
+	}()
+	return visitInstr(fr, instr)
+}
